@@ -1,7 +1,8 @@
 (* CorrC14.v — correspondence harness for C14.  Two kinds of cases:
    CSeq : an in-process history on one CAS.  Labels are 1..n (the scenario's object labels).  The case carries: the id of
           every label before the first operation (-1 = none), the generator's next id computed from the scenario, the
-          labels each format visits (computed by the harness with an identity-based traversal of its own; the id-less ones
+          labels of the byte arrays holding sofa data in view order (ta, from the scenario), the
+          labels each traversal visits (computed by the harness with an identity-based traversal of its own; the id-less ones
           ordered as the implementation was seen to visit them), the label lists behind the canonical queries (from the
           scenario: members per view, members of the queried subtree per view), the query answers before the first
           operation, the operations, and what was observed after each one (compactly):
@@ -34,7 +35,7 @@ Record emitobs := mkEmit {
   em_ts : list (list string * list string * list string) }.  (* (redeclared set, type-name set, observed name order) *)
 
 Inductive case :=
-| CSeq (ids : list Z) (next : Z) (tx tj : list Z) (queries : list (list Z)) (q0 : list (list Z)) (ops : list op)
+| CSeq (ids : list Z) (next : Z) (ta tx tj : list Z) (queries : list (list Z)) (q0 : list (list Z)) (ops : list op)
        (obs : list stepobs)
 | CEmit (e : emitobs).
 
@@ -101,10 +102,10 @@ Fixpoint check_steps (queries : list (list N)) (r : list (state * option (list (
   | _, _ => false
   end.
 
-Definition check_seq ids next tx tj queries q0 ops (obs : list stepobs) : bool :=
+Definition check_seq ids next ta tx tj queries q0 ops (obs : list stepobs) : bool :=
   let s0 := init_state ids next in
   let qs := map nl queries in
-  let r := run (nl tx) (nl tj) ops s0 in
+  let r := run (nl ta) (nl tx) (nl tj) ops s0 in
   list_eqb zs_eqb (map (query s0) qs) q0 &&
   check_steps qs r obs (map e_id (st_entries s0)) [] q0 &&
   zs_eqb (classes 0 [] (combine ops (map snd r))) (map ob_class obs).
@@ -127,7 +128,7 @@ Definition check_emit (e : emitobs) : bool :=
 
 Definition check_case (c : case) : bool :=
   match c with
-  | CSeq ids next tx tj queries q0 ops obs => check_seq ids next tx tj queries q0 ops obs
+  | CSeq ids next ta tx tj queries q0 ops obs => check_seq ids next ta tx tj queries q0 ops obs
   | CEmit e => check_emit e
   end.
 
@@ -138,9 +139,10 @@ Fixpoint snodupb (l : list string) : bool :=
   match l with [] => true | x :: r => negb (memb x r) && snodupb r end.
 Definition premises (c : case) : bool :=
   match c with
-  | CSeq ids next tx tj queries q0 ops obs =>
+  | CSeq ids next ta tx tj queries q0 ops obs =>
       let s0 := init_state ids next in
-      znodupb (present (st_entries s0)) && ((settledb (nl tx) s0 && settledb (nl tj) s0) || wf_stateb s0)
+      znodupb (present (st_entries s0)) &&
+      ((settledb (xmi_trav (nl ta) (nl tx)) s0 && settledb (nl ta ++ nl tj) s0) || wf_stateb s0)
   | CEmit e =>
       znodupb (map fi_id (em_found_x e)) && znodupb (map fi_id (em_found_j e)) &&
       forallb (fun p : list string * list string => snodupb (fst p)) (em_j_types e) &&
